@@ -520,6 +520,16 @@ def rule_packers(repo, rule, rule4):
             off = poly_of(comp.elt.args[1], le, strict=True)
             cnt = poly_of(g.iter.args[0], le, strict=True) if isinstance(g.iter, ast.Call) and norm(g.iter.func) == "range" and len(g.iter.args) == 1 else None
             okk = off == P.sym("pos") + P.sym("i") * P.sym("c") and cnt == P.sym("n")
+            if not okk and isinstance(g.iter, ast.Call) and norm(g.iter.func) == "range" and len(g.iter.args) == 3 and not g.iter.keywords:
+                # a strided range(a, b, s): iteration j has i = a + j*s; there are n of them when b - a = n*s (s = child length > 0)
+                le0 = dict(le)
+                del le0[i]
+                a_, b_, s_ = [poly_of(x, le0, strict=True) for x in g.iter.args]
+                if a_ is not None and b_ is not None and s_ is not None:
+                    le2 = dict(le)
+                    le2[i] = a_ + P.sym("i") * s_
+                    off2 = poly_of(comp.elt.args[1], le2, strict=True)
+                    okk = off2 == P.sym("pos") + P.sym("i") * P.sym("c") and b_ - a_ == P.sym("n") * s_
     if not okk:
         r1_ = [n.value for n in ast.walk(unf.node) if isinstance(n, ast.Return) and n.value is not None]
         zl = zipped_layout(m, unf, r1_[0], unf.params[1]) if len(r1_) == 1 else None
